@@ -19,8 +19,10 @@ def prepare(recs, seed):
     for r in recs:
         by.setdefault(r["lkind"], []).append(r)
     for lk, ms in by.items():
-        for k in range(0, len(ms), 256):
-            tasks.append(dict(kind="gradbatch", lkind=lk, seed=seed, masks=ms[k:k + 256]))
+        sysl = lk in ("sysode", "syspde")
+        step = 16 if sysl else 256          # system losses are rebuilt through their constructor for every specification
+        for k in range(0, len(ms), step):
+            tasks.append(dict(kind="sysgradbatch" if sysl else "gradbatch", lkind=lk, seed=seed, masks=ms[k:k + step]))
     return tasks
 
 
@@ -44,7 +46,8 @@ def sig(r):
 def run(tier, seed):
     q = tier == "quick"
     emitters = [("MC_Masks", MC % ("ode", 1), "MC_Masks_ode"), ("MC_Masks", MC % ("statio", 8 if q else 1), "MC_Masks_statio"),
-                ("MC_Masks", MC % ("nonstatio", 64 if q else 1), "MC_Masks_nonstatio")]
+                ("MC_Masks", MC % ("nonstatio", 64 if q else 1), "MC_Masks_nonstatio"),
+                ("MC_Masks", MC % ("sysode", 16 if q else 2), "MC_Masks_sysode"), ("MC_Masks", MC % ("syspde", 2048 if q else 128), "MC_Masks_syspde")]
     return _func.run(
         "C06", tier, seed, emitters=emitters, extras=extras, prepare=prepare, sig=sig, chunk=3000, exhaustive=not q,
         rule="TLC enumerates EVERY assignment of {selected, not selected} to every (loss term, parameter group) pair: 512 (ODE), 4096 "
